@@ -58,8 +58,30 @@ theorem getD_filterRow (t bpp : Nat) (prev row : Bytes) (i : Nat) (h : i < row.l
 theorem length_filterRow (t bpp : Nat) (prev row : Bytes) : (pngFilterRow t bpp prev row).length = row.length := by
   simp [pngFilterRow]
 
+theorem wrap16_id {x : Int} (h1 : -32768 ≤ x) (h2 : x < 32768) : wrap16 x = x := by
+  unfold wrap16; omega
+
+/-- the `i16` computation of `filter_paeth` never leaves the `i16` range (every `wrap16` is the identity),
+    hence equals the PNG specification's Paeth function over the integers -/
 theorem filterPaeth_eq_spec (a b c : UInt8) : filterPaeth a b c = paethSpec a b c := by
-  simp [filterPaeth, paethSpec]
+  have ha : a.toNat < 256 := by have := a.toNat_lt_size; simpa [UInt8.size] using this
+  have hb : b.toNat < 256 := by have := b.toNat_lt_size; simpa [UInt8.size] using this
+  have hc : c.toNat < 256 := by have := c.toNat_lt_size; simpa [UInt8.size] using this
+  unfold filterPaeth paethSpec
+  simp only
+  have e1 : wrap16 ((a.toNat : Int) + b.toNat) = (a.toNat : Int) + b.toNat := wrap16_id (by omega) (by omega)
+  rw [e1]
+  have e2 : wrap16 ((a.toNat : Int) + b.toNat - c.toNat) = (a.toNat : Int) + b.toNat - c.toNat := wrap16_id (by omega) (by omega)
+  rw [e2]
+  have e3 : wrap16 ((a.toNat : Int) + b.toNat - c.toNat - a.toNat) = (a.toNat : Int) + b.toNat - c.toNat - a.toNat := wrap16_id (by omega) (by omega)
+  have e4 : wrap16 ((a.toNat : Int) + b.toNat - c.toNat - b.toNat) = (a.toNat : Int) + b.toNat - c.toNat - b.toNat := wrap16_id (by omega) (by omega)
+  have e5 : wrap16 ((a.toNat : Int) + b.toNat - c.toNat - c.toNat) = (a.toNat : Int) + b.toNat - c.toNat - c.toNat := wrap16_id (by omega) (by omega)
+  rw [e3, e4, e5]
+  have f1 : wrap16 (((a.toNat : Int) + b.toNat - c.toNat - a.toNat).natAbs : Int) = (((a.toNat : Int) + b.toNat - c.toNat - a.toNat).natAbs : Int) := wrap16_id (by omega) (by omega)
+  have f2 : wrap16 (((a.toNat : Int) + b.toNat - c.toNat - b.toNat).natAbs : Int) = (((a.toNat : Int) + b.toNat - c.toNat - b.toNat).natAbs : Int) := wrap16_id (by omega) (by omega)
+  have f3 : wrap16 (((a.toNat : Int) + b.toNat - c.toNat - c.toNat).natAbs : Int) = (((a.toNat : Int) + b.toNat - c.toNat - c.toNat).natAbs : Int) := wrap16_id (by omega) (by omega)
+  rw [f1, f2, f3]
+  simp only [Int.ofNat_le]
 
 theorem half_eq : ∀ b : UInt8, b / 2 = UInt8.ofNat ((0 + b.toNat) / 2) := by decide +kernel
 
